@@ -82,6 +82,19 @@ def full_repo(rng):
     nodes[:] = [n for n in nodes if n['p'] != 'profiles/categories']
     nodes.append({'p': 'profiles/categories', 't': 'f',
                   'c': {'t': ''.join(c + '\n' for c in listed)}})
+    if rng.random() < 0.25:
+        # a package directory whose last ebuild was removed: metadata.xml (and files/)
+        # are all that is left
+        pkgs = sorted({os.path.dirname(n['p']) for n in nodes
+                       if n['p'].endswith('.ebuild')})
+        if pkgs:
+            bare = rng.choice(pkgs)
+            nodes[:] = [n for n in nodes if not (n['p'].endswith('.ebuild')
+                                                 and os.path.dirname(n['p']) == bare)]
+            if bare + '/metadata.xml' not in have:
+                nodes.append({'p': bare + '/metadata.xml', 't': 'f',
+                              'c': {'t': '<pkgmetadata/>\n'}})
+                have.add(bare + '/metadata.xml')
     ensure_file('eclass/base.eclass', '# eclass\n')
     ensure_file('licenses/GPL-2', 'text\n')
     ensure_file('metadata/dtd/x.dtd', '<!-- -->\n')
@@ -120,9 +133,14 @@ def run_script(name, arg, cwd=None):
     return r.returncode, (r.stdout + r.stderr)[-800:]
 
 
-def gemato_cli(argv):
+def gemato_cli(argv, wseed=None):
     from gemato import cli as gcli
+    from vf.mon import walkperm
     try:
+        if wseed is not None:
+            # (the order in which directories are enumerated is not the tree's)
+            with walkperm.WalkPermuter(wseed):
+                return gcli.main(['gemato'] + argv)
         return gcli.main(['gemato'] + argv)
     except SystemExit as exc:
         return 'exit:%r' % (exc.code,)
@@ -159,10 +177,31 @@ def apply_edits(root, edits):
             if os.path.exists(os.path.join(root, f)):
                 os.unlink(os.path.join(root, f))
                 files.remove(f)
+        elif ed['kind'] == 'new-package':
+            # a new package next to an existing one, its name extending the other's
+            pk = sorted(os.path.relpath(dp, root) for dp, dn, fn in os.walk(root)
+                        if any(x.endswith('.ebuild') for x in fn))
+            if pk and root_is_repo(root):
+                base = pk[ed['pick'] % len(pk)]
+                nd = os.path.join(root, base + rng_suffix(ed['pick']))
+                if not os.path.exists(nd):
+                    os.makedirs(nd)
+                    with open(os.path.join(nd, 'new-1.ebuild'), 'w') as fh:
+                        fh.write('EAPI=8\n')
+                    with open(os.path.join(nd, 'metadata.xml'), 'w') as fh:
+                        fh.write('<pkgmetadata/>\n')
         else:
             nf = os.path.join(os.path.dirname(f), 'added-%d.txt' % (ed['pick'] % 1000))
             with open(os.path.join(root, nf), 'w') as fh:
                 fh.write('added')
+
+
+def root_is_repo(root):
+    return os.path.isdir(os.path.join(root, 'profiles'))
+
+
+def rng_suffix(pick):
+    return ['-bin', '2', '-extra', '.new'][pick % 4]
 
 
 def judge(ctx, root, case):
@@ -226,7 +265,7 @@ def judge(ctx, root, case):
     # ---- edits, then update must restore a verifying tree
     if case['edits'] and not nested_files:
         apply_edits(troot, case['edits'])
-        ur = gemato_cli(['update', '-p', 'ebuild', troot])
+        ur = gemato_cli(['update', '-p', 'ebuild', troot], wseed=case['pre_seed'])
         if ur != 0:
             ctx.violation('update-after-edits-fails:' + (adapt.exc_key(ur) if isinstance(
                 ur, Exception) else str(ur)), '`gemato update -p ebuild` after edits '
@@ -253,7 +292,8 @@ def run_unit(u, ctx):
                 'mode': 'single' if rng.random() < 0.35 else 'meta',
                 'pre': rng.random() < 0.5, 'pre_seed': rng.randrange(1 << 30),
                 'pick': rng.randrange(1 << 20),
-                'edits': [{'kind': rng.choice(['change', 'add', 'delete']),
+                'edits': [{'kind': rng.choice(['change', 'add', 'delete', 'change', 'add',
+                                               'delete', 'new-package']),
                            'pick': rng.randrange(1 << 20)}
                           for _ in range(rng.randint(0, 5))]}
         exec_case(ctx, case)
